@@ -234,17 +234,17 @@ func ExpectedLens(p *PathSpec, s Sess) map[uint8][]int {
 // length is not one a correct encoding of the handed content could declare ("" if none before the walk
 // loses alignment or ends). Everything after such an attribute is misaligned garbage, so this is the
 // one observation that pins which serializer wrote a wrong length.
-func LengthCulprit(body []byte, lens map[uint8][]int) (attr string, declared int) {
+func LengthCulprit(body []byte, lens map[uint8][]int) (attr string, declared int, typ uint8) {
 	if len(body) < 4 {
-		return "", 0
+		return "", 0, 0
 	}
 	wl := int(body[0])<<8 | int(body[1])
 	if 4+wl > len(body) {
-		return "", 0
+		return "", 0, 0
 	}
 	al := int(body[2+wl])<<8 | int(body[3+wl])
 	if 4+wl+al > len(body) {
-		return "", 0
+		return "", 0, 0
 	}
 	b := body[4+wl : 4+wl+al]
 	seen := map[uint8]bool{}
@@ -252,13 +252,13 @@ func LengthCulprit(body []byte, lens map[uint8][]int) (attr string, declared int
 		t := b[1]
 		allowed, ok := lens[t]
 		if !ok || seen[t] {
-			return "", 0
+			return "", 0, 0
 		}
 		seen[t] = true
 		var l, h int
 		if b[0]&wire.FlagExtLen != 0 {
 			if len(b) < 4 {
-				return "", 0
+				return "", 0, 0
 			}
 			l, h = int(b[2])<<8|int(b[3]), 4
 		} else {
@@ -270,15 +270,15 @@ func LengthCulprit(body []byte, lens map[uint8][]int) (attr string, declared int
 				fits = fits || a == l
 			}
 			if !fits {
-				return AttrName(t), l
+				return AttrName(t), l, t
 			}
 		}
 		if h+l > len(b) {
-			return AttrName(t), l
+			return AttrName(t), l, t
 		}
 		b = b[h+l:]
 	}
-	return "", 0
+	return "", 0, 0
 }
 
 // NewSender builds a hook sender for the session writing into a fresh capture.
